@@ -4,8 +4,8 @@ from harness.props import c01
 
 ID = 'C10'
 MODULE = 'Gpv.Props.C10'
-THEOREMS = core.theorems('C10') + ['Gpv.C01.serial_final', 'Gpv.C01.serial_final_explicit']
-MODULES = ['Gpv.Props.C10', 'Gpv.Props.C01']
+THEOREMS = core.theorems('C10') + ['Gpv.C01.serial_final', 'Gpv.C01.serial_final_explicit', 'Gpv.C01Ship.shipped_stream_eq', 'Gpv.C01Ship.sspec_congr']
+MODULES = ['Gpv.Props.C10', 'Gpv.Props.C01', 'Gpv.Props.C01Ship']
 RULE = ('in-process stage whose function returns a mix of plain values, None, empty and finite generators with embedded None and falsy '
         'items; skipNone both ways; partial consumption histories (k nexts then close / exhaust); the source and every inner generator '
         'log each pull; oracle: output = concatenation of the per-element expansions; at the hand-over of item j of element i exactly '
